@@ -399,10 +399,11 @@ func randSchema(r *rand.Rand) []string {
 		fs = append(fs, pick(r, schemaFields))
 	}
 	if r.Intn(2) == 0 {
+		str := pick(r, []string{"s", "s", "r"})
 		if n == 4 {
-			fs[3] = "s"
+			fs[3] = str
 		} else {
-			fs = append(fs, "s")
+			fs = append(fs, str)
 		}
 	}
 	return fs
@@ -411,7 +412,7 @@ func randSchema(r *rand.Rand) []string {
 func compUniverses(fields []string) []universe {
 	fieldGen := make([]func(r *rand.Rand) string, len(fields))
 	for i, f := range fields {
-		if f == "s" {
+		if f == "s" || f == "r" {
 			fieldGen[i] = func(r *rand.Rand) string {
 				if r.Intn(2) == 0 {
 					return hexLit(randBytes(r, []byte("ab"), 0, 4))
@@ -455,7 +456,7 @@ func compUniverses(fields []string) []universe {
 			pinned[v] = make([]string, len(fields))
 			for i := range fields {
 				pinned[v][i] = fieldGen[i](r)
-				if fields[i] == "s" {
+				if fields[i] == "s" || fields[i] == "r" {
 					pinned[v][i] = hexLit([]byte(strings.Repeat("p", pick(r, []int{11, 13, 12, 254, 258})+2*v)))
 				}
 			}
@@ -463,7 +464,7 @@ func compUniverses(fields []string) []universe {
 	}
 	lastNum := -1
 	for i, f := range fields {
-		if f != "s" && f != "f32" && f != "f64" {
+		if f != "s" && f != "r" && f != "f32" && f != "f64" {
 			lastNum = i
 		}
 	}
@@ -476,7 +477,7 @@ func compUniverses(fields []string) []universe {
 			parts[lastNum] = bitsLit((base|uint64(r.Intn(1<<12)))&maskW(w), w)
 		}
 		for i, f := range fields {
-			if f == "s" {
+			if f == "s" || f == "r" {
 				parts[i] = hexLit(append(unhex(parts[i]), randBytes(r, []byte("ab"), 0, 2)...))
 			}
 		}
@@ -492,7 +493,7 @@ func compUniverses(fields []string) []universe {
 		// keys share everything before it: long compressed paths with branch points deep inside), otherwise anywhere
 		total := 0
 		for _, f := range fields {
-			if f != "s" {
+			if f != "s" && f != "r" {
 				total += widthOf(f) / 8
 			}
 		}
@@ -501,7 +502,7 @@ func compUniverses(fields []string) []universe {
 			if total > 0 && (deepOnly || r.Intn(2) == 0) {
 				g := total - 1 - r.Intn(min(4, total))
 				for j, f := range fields {
-					if f == "s" {
+					if f == "s" || f == "r" {
 						continue
 					}
 					if w := widthOf(f) / 8; g < w {
@@ -513,7 +514,7 @@ func compUniverses(fields []string) []universe {
 				}
 			}
 			switch f := fields[i]; f {
-			case "s":
+			case "s", "r":
 				b := unhex(parts[i])
 				if len(b) > 0 {
 					b[r.Intn(len(b))] = pick(r, []byte("pqr"))
